@@ -198,6 +198,9 @@ func init() {
 				o.ExtraMemo = 4
 			}
 			g := GenGrammar(t, o)
+			if rapid.IntRange(0, 2).Draw(t, "prefixalts") == 0 {
+				prefixAlternatives(t, g, o)
+			}
 			makeLoud(g)
 			for _, e := range g.exprs() {
 				if e.K == KOpt {
